@@ -517,7 +517,7 @@ func sameNode(a, b datamodel.Node) (same bool) {
 
 func contains(interest []datamodel.PathSegment, candidate datamodel.PathSegment) bool {
 	for _, i := range interest {
-		if i == candidate {
+		if i.Equals(candidate) { // (not ==: list iteration yields int segments, ExploreFields interests are strings)
 			return true
 		}
 	}
